@@ -7,7 +7,7 @@ import random
 import shutil
 import sys
 import numpy as np
-from replay import gen
+from replay import gen, oracle
 from .rt_tools import make_input
 from .rt_common import tree_digest
 from .fakepool import patch_pools
@@ -330,6 +330,61 @@ def run_frame_scenario(p, wd):
                     break
             if len(fails) > 12:
                 break
+        # ---- an input whose binary file stops at a FAB boundary (the FABs before the cut are intact, the rest is missing): every
+        # tool that reads the box data must fail, not return with an output made of what was left
+        def cut_copy(src, name):
+            dst = os.path.join(work, name)
+            shutil.copytree(src, dst)
+            info = oracle.read(dst)
+            for lv in range(info["L"] + 1):
+                for fn in sorted(set(info["levels"][lv]["files"])):
+                    fp = os.path.join(dst, f"Level_{lv}", fn)
+                    scan = oracle.scan_file(fp)
+                    if len(scan) >= 2:
+                        with open(fp, "r+b") as fh:
+                            fh.truncate(scan[-1][3])        # the last FAB is gone, nothing else changes
+                        return dst
+            return None
+        cut1, cut2 = cut_copy(pf_path, "plt_cut_a"), cut_copy(pf2_path, "plt_cut_b")
+        # (the same with two plotfiles that store their boxes in the same files in box order: combine then reads both files
+        # front to back, another code path)
+        mono = []
+        for tag, nms in (("m1", ["density", "temp"]), ("m2", ["alpha"])):
+            pm = gen.make_pf(ndims=3, names=nms, n0=pf.n0, geo_lo=pf.geo_lo, dx0=pf.dx0, levels=pf.levels, nfiles=1, layout="monotone",
+                             seed=p["seed"] + 11, time=pf.time)
+            pth = os.path.join(work, "plt_mono_" + tag)
+            gen.write_plotfile(pth, pm)
+            mono.append(pth)
+        cut_m2 = cut_copy(mono[1], "plt_mono_cut")
+
+        def _combine_cut(a, b):
+            from amr_kitchen import PlotfileCooker
+            from amr_kitchen.combine.combine import combine as cb
+            cb(PlotfileCooker(a), PlotfileCooker(b), pltout=os.path.join(work, "o_cut_combine"))
+
+        def _colander_cut(a):
+            from amr_kitchen.colander.colander import Colander
+            Colander(plotfile=a, output=os.path.join(work, "o_cut_colander"), variables=["temp"]).strain()
+        cut_cases = []
+        if cut_m2:
+            cut_cases.append(("combine (boxes in the same files in box order), second input cut at a FAB boundary", lambda: _combine_cut(mono[0], cut_m2)))
+        if cut2:
+            cut_cases.append(("combine, second input cut at a FAB boundary", lambda: _combine_cut(pf_path, cut2)))
+        if cut1:
+            cut_cases.append(("combine, first input cut at a FAB boundary", lambda: _combine_cut(cut1, pf2_path)))
+            cut_cases.append(("colander, input cut at a FAB boundary", lambda: _colander_cut(cut1)))
+        for desc_, thunk in cut_cases:
+            checks += 1
+            try:
+                thunk()
+                fails.append({"what": "failing request returned normally", "call": desc_, "detail": "an input binary file lacks its last FAB"})
+            except SystemExit as e:
+                if e.code in (None, 0):
+                    fails.append({"what": "failing request exited with status 0", "call": desc_, "detail": ""})
+            except BaseException:      # noqa
+                pass
+            for o_ in ("o_cut_combine", "o_cut_colander"):
+                shutil.rmtree(os.path.join(work, o_), ignore_errors=True)
         # ---- failing requests must raise: unknown field, unreadable input
         from amr_kitchen.mandoline.mandoline import Mandoline
         for desc_, thunk in (("mandoline unknown field", lambda: Mandoline(pf_path, fields=["nope"], serial=True, verbose=0).slice(fformat="return")),
